@@ -373,7 +373,8 @@ class World:
             inputs = {'recv': recv, 'args': args, 'kwargs': kwargs}
             self.history.append({'rec': rec, 'inputs': inputs,
                                  'insnap': values.snapshot([recv, args, kwargs]),
-                                 'tag': tag, 'rsnap': rsnap, 'step': self.step_no})
+                                 'tag': tag, 'rsnap': rsnap, 'step': self.step_no,
+                                 'res': res if outcome == 'ok' else None})
             if len(self.history) > HISTORY:
                 del self.history[0]
         return out
@@ -451,10 +452,30 @@ class World:
         back = int(rec.get('back', 1))
         ent = self.history[-1 - ((back - 1) % len(self.history))]
         self.cur_op = 'redeliver:' + ent['rec']['key']
+        poked = False
+        if rec.get('poke') and ent['tag'] == 'ok':
+            poked = self._poke(ent['res'])
         r = self._reissue(ent, bool(rec.get('copy')), 'redeliver')
         if r == 'same':
             self.probe('f_redeliver')
-        return {'r': r, 'of': ent['rec']['key']}
+            if poked:
+                self.probe('f_redeliver_after_caller_wrote_into_result')
+        return {'r': r, 'of': ent['rec']['key'], 'poked': poked}
+
+    def _poke(self, res):
+        """The caller writes into a value an earlier call returned (its own data by then).
+        Every heap snapshot is refreshed afterwards: this is the caller's doing, not a call's."""
+        done = False
+        for a in values.array_leaves(res):
+            if a.dtype.kind == 'f' and a.flags.writeable and a.size:
+                a[...] = a * 1.5 + 0.25
+                done = True
+        if done:
+            for h in self.heap:
+                h.snap = values.snapshot(h.value)
+                h.kind = values.classify(h.value)
+                h.n = _length(h.value)
+        return done
 
     def op_reorder(self, rec):
         n = 0
@@ -524,6 +545,7 @@ def gen_config(rng):
         'heap_ref_rate': rng.choice([0.2, 0.5, 0.8]),
         'plain_forms': rng.random() < 0.3,
         'multi_rate': rng.choice([0.1, 0.4]),
+        'poke_rate': rng.choice([0.0, 0.0, 0.3]),
     }
 
 
@@ -744,7 +766,8 @@ def gen_step(world, cfg, rng):
     if len(world.heap) > cfg['heap_cap']:
         return {'op': 'drop', 'x': rng.randrange(len(world.heap))}
     if world.history and rng.random() < cfg['redeliver_rate']:
-        return {'op': 'redeliver', 'back': rng.randint(1, 15), 'copy': rng.random() < 0.5}
+        return {'op': 'redeliver', 'back': rng.randint(1, 15), 'copy': rng.random() < 0.5,
+                'poke': rng.random() < cfg['poke_rate']}
     entry = choose_entry(world, cfg, rng)
     try:
         return gen_call(entry, world, cfg, rng)
@@ -823,6 +846,8 @@ def simplify(rec):
     if rec.get('op') == 'redeliver':
         if rec.get('copy'):
             out.append(dict(rec, copy=False))
+        if rec.get('poke'):
+            out.append(dict(rec, poke=False))
         if rec.get('back', 1) != 1:
             out.append(dict(rec, back=1))
         return out
